@@ -10,8 +10,10 @@
            does not depend on the fresh symbols): needed for the top-level clean-up;
        (Sh) every literal is an atom, a negated atom or a Boolean constant.
    The simplifier on theory atoms is the Section variable [asimp]; hypotheses: it preserves the
-   truth value ([asimp_sound], property C01) and - for the shape theorem only - returns a
-   literal ([asimp_shape]). *)
+   truth value under the interpretations of a class [Pi] closed under giving Boolean values to
+   Boolean symbols ([asimp_sound]; Pi = all interpretations gives the unconditional theorems,
+   Pi = well-sorted interpretations is what C01 proves: proofs/CnfSimp_proofs.v) and - for the
+   shape theorem only - returns a literal ([shape_hyp]). *)
 From Coq Require Import List ZArith Bool String Lia DecimalString DecimalNat FinFun.
 From PySMT.core Require Import Syntax SyntaxLemmas Sem.
 From PySMT.models Require Import TypeChecker Oracles Cnf.
@@ -235,10 +237,11 @@ Proof. intros Hnd Hin. rewrite tv_sym. cbn. now rewrite (byname_unique M t n Hnd
 Definition same_off (N : list string) (J J' : interp) : Prop :=
   ifun J = ifun J' /\ rdiv0 J = rdiv0 J' /\ idiv0 J = idiv0 J' /\
   forall n ty, ~ (ty = TBool /\ In n N) -> isym J n ty = isym J' n ty.
-Definition stable (N : list string) (l : term) : Prop := forall J J', same_off N J J' -> tv J l = tv J' l.
+Definition stable (Pi : interp -> Prop) (N : list string) (l : term) : Prop :=
+  forall J J', Pi J -> Pi J' -> same_off N J J' -> tv J l = tv J' l.
 Definition symlit (N : list string) (l : term) : Prop :=
   exists n, In n N /\ (l = TSym n TBool \/ l = T ONot [TSym n TBool]).
-Definition litok (N : list string) (l : term) : Prop := symlit N l \/ stable N l.
+Definition litok (Pi : interp -> Prop) (N : list string) (l : term) : Prop := symlit N l \/ stable Pi N l.
 
 Lemma same_off_eval N J J' t : same_off N J J' -> (forall n, In n N -> ~ In (n, TBool) (fv t)) ->
   eval J t = eval J' t.
@@ -286,7 +289,12 @@ Qed.
 
 Section Proofs.
   Variable asimp : term -> term.
-  Hypothesis asimp_sound : forall I t, tv I (asimp t) = tv I t.
+  (* the interpretations the simplifier is sound for (all of them, or the well-sorted ones):
+     closed under the two ways the proofs build interpretations *)
+  Variable Pi : interp -> Prop.
+  Hypothesis asimp_sound : forall I t, Pi I -> tv I (asimp t) = tv I t.
+  Hypothesis Pi_ext : forall I M, Pi I -> Pi (ext I M).
+  Hypothesis Pi_bind : forall J n b, Pi J -> Pi (bind1 J (n, TBool) (VBool b)).
 
   Notation simplify := (simplify asimp).
   Notation neg_lit := (neg_lit asimp).
@@ -297,15 +305,15 @@ Section Proofs.
     - destruct args as [|y [|z r]]; try reflexivity. cbn [negate]. now rewrite tv_not, negb_involutive.
     - destruct args as [|y r]; reflexivity.
   Qed.
-  Lemma simplify_tv I : forall t, tv I (simplify t) = tv I t.
+  Lemma simplify_tv I : Pi I -> forall t, tv I (simplify t) = tv I t.
   Proof.
-    induction t as [o args IH] using term_ind'. destruct o; cbn [Cnf.simplify]; auto.
+    intros HP. induction t as [o args IH] using term_ind'. destruct o; cbn [Cnf.simplify]; auto.
     - destruct args as [|a [|b r]]; auto. inversion IH as [|? ? Ha _]; subst.
       now rewrite negate_tv, Ha, tv_not.
     - destruct args; auto.
   Qed.
-  Lemma neg_lit_tv I a : tv I (neg_lit a) = negb (tv I a).
-  Proof. unfold Cnf.neg_lit. now rewrite simplify_tv, mk_not_tv. Qed.
+  Lemma neg_lit_tv I a : Pi I -> tv I (neg_lit a) = negb (tv I a).
+  Proof. intros HP. unfold Cnf.neg_lit. now rewrite simplify_tv, mk_not_tv. Qed.
 
   Lemma neg_lit_sym n : neg_lit (TSym n TBool) = T ONot [TSym n TBool].
   Proof. reflexivity. Qed.
@@ -316,11 +324,11 @@ Section Proofs.
   Proof.
     intros (n & Hn & [->| ->]); split; exists n; split; auto.
   Qed.
-  Lemma stable_neg N a : stable N a -> stable N (neg_lit a) /\ stable N (mk_not a).
+  Lemma stable_neg N a : stable Pi N a -> stable Pi N (neg_lit a) /\ stable Pi N (mk_not a).
   Proof.
-    intros H. split; intros J J' HJ; rewrite ?neg_lit_tv, ?mk_not_tv; f_equal; auto.
+    intros H. split; intros J J' HP HP' HJ; rewrite ?neg_lit_tv, ?mk_not_tv by assumption; f_equal; auto.
   Qed.
-  Lemma litok_neg N a : litok N a -> litok N (neg_lit a) /\ litok N (mk_not a).
+  Lemma litok_neg N a : litok Pi N a -> litok Pi N (neg_lit a) /\ litok Pi N (mk_not a).
   Proof.
     intros [H|H].
     - destruct (symlit_neg N a H). split; left; auto.
@@ -351,19 +359,19 @@ Section Proofs.
     sat J (flat_map snd ps) = forallb (fun p => sat J (snd p)) ps.
   Proof. induction ps as [|p r IH]; cbn [flat_map forallb]; [reflexivity|]. now rewrite sat_app, IH. Qed.
 
-  Lemma exists_neg J (ps : list (term * list (list term))) :
+  Lemma exists_neg J (ps : list (term * list (list term))) : Pi J ->
     existsb (tv J) (map (fun p => neg_lit (fst p)) ps) = negb (forallb (fun p => tv J (fst p)) ps).
-  Proof. induction ps as [|p r IH]; cbn; auto. now rewrite neg_lit_tv, IH, negb_andb. Qed.
+  Proof. intros HP. induction ps as [|p r IH]; cbn; auto. now rewrite neg_lit_tv, IH, negb_andb by assumption. Qed.
   Lemma exists_fst J (ps : list (term * list (list term))) :
     existsb (tv J) (map fst ps) = existsb (fun p => tv J (fst p)) ps.
   Proof. apply existsb_map. Qed.
 
-  Lemma sat_and_clauses J k (ps : list (term * list (list term))) :
+  Lemma sat_and_clauses J k (ps : list (term * list (list term))) : Pi J ->
     sat J (mkclause (k :: map (fun p => neg_lit (fst p)) ps)
            :: flat_map (fun p => mkclause [fst p; nk k] :: snd p) ps)
     = Bool.eqb (tv J k) (forallb (fun p => tv J (fst p)) ps) && forallb (fun p => sat J (snd p)) ps.
-  Proof.
-    rewrite sat_cons, csat_mkclause. cbn [csat existsb]. rewrite exists_neg.
+  Proof. intros HP.
+    rewrite sat_cons, csat_mkclause. cbn [csat existsb]. rewrite exists_neg by assumption.
     assert (E : sat J (flat_map (fun p => mkclause [fst p; nk k] :: snd p) ps)
                 = implb (tv J k) (forallb (fun p => tv J (fst p)) ps) && forallb (fun p => sat J (snd p)) ps).
     { unfold clause. induction ps as [|p r IH]; cbn [flat_map forallb app].
@@ -399,10 +407,10 @@ Section Proofs.
     - rewrite sat_cons, IH, csat_mkclause. cbn [csat existsb]. unfold nk. rewrite tv_not.
       destruct (tv J k); destruct (tv J (fst p)); destruct (forallb (fun p => tv J (fst p)) r); reflexivity.
   Qed.
-  Lemma sat_pol_and_neg J k (ps : list (term * list (list term))) :
+  Lemma sat_pol_and_neg J k (ps : list (term * list (list term))) : Pi J ->
     sat J [mkclause (k :: map (fun p => neg_lit (fst p)) ps)] = implb (forallb (fun p => tv J (fst p)) ps) (tv J k).
-  Proof.
-    cbn [sat forallb]. rewrite csat_mkclause. cbn [csat existsb]. rewrite exists_neg.
+  Proof. intros HP.
+    cbn [sat forallb]. rewrite csat_mkclause. cbn [csat existsb]. rewrite exists_neg by assumption.
     destruct (tv J k); destruct (forallb (fun p => tv J (fst p)) ps); reflexivity.
   Qed.
   Lemma sat_pol_or_pos J k (ps : list (term * list (list term))) :
@@ -411,34 +419,34 @@ Section Proofs.
     cbn [sat forallb]. rewrite csat_mkclause. cbn [csat existsb]. rewrite exists_fst. unfold nk. rewrite tv_not.
     destruct (tv J k); destruct (existsb (fun p => tv J (fst p)) ps); reflexivity.
   Qed.
-  Lemma sat_pol_or_neg J k (ps : list (term * list (list term))) :
+  Lemma sat_pol_or_neg J k (ps : list (term * list (list term))) : Pi J ->
     sat J (map (fun p => mkclause [k; neg_lit (fst p)]) ps) = implb (existsb (fun p => tv J (fst p)) ps) (tv J k).
-  Proof.
+  Proof. intros HP.
     induction ps as [|p r IH]; cbn [map existsb].
     - reflexivity.
-    - rewrite sat_cons, IH, csat_mkclause. cbn [csat existsb]. rewrite neg_lit_tv.
+    - rewrite sat_cons, IH, csat_mkclause. cbn [csat existsb]. rewrite neg_lit_tv by assumption.
       destruct (tv J k); destruct (tv J (fst p)); destruct (existsb (fun p => tv J (fst p)) r); reflexivity.
   Qed.
 
   (* fixed-arity groups: normalise [sat] of a concrete clause list to a Boolean expression *)
   Ltac norm_sat :=
     repeat rewrite sat_app; cbn [sat forallb]; repeat rewrite csat_mkclause; cbn [csat existsb];
-    unfold nk; repeat rewrite ?neg_lit_tv, ?tv_not.
+    unfold nk; repeat (rewrite ?neg_lit_tv, ?tv_not by assumption).
 
-  Lemma sat_implies J k a b ca cb :
+  Lemma sat_implies J k a b ca cb : Pi J ->
     sat J (ca ++ cb ++ [mkclause [neg_lit a; b; nk k]; mkclause [a; k]; mkclause [neg_lit b; k]])
     = sat J ca && sat J cb && Bool.eqb (tv J k) (implb (tv J a) (tv J b)).
-  Proof. norm_sat. fold (sat J ca) (sat J cb). destruct (sat J ca); destruct (sat J cb); destruct (tv J k); destruct (tv J a); destruct (tv J b); reflexivity. Qed.
-  Lemma sat_iff J k a b ca cb :
+  Proof. intros HP. norm_sat. fold (sat J ca) (sat J cb). destruct (sat J ca); destruct (sat J cb); destruct (tv J k); destruct (tv J a); destruct (tv J b); reflexivity. Qed.
+  Lemma sat_iff J k a b ca cb : Pi J ->
     sat J (ca ++ cb ++ [mkclause [neg_lit a; neg_lit b; k]; mkclause [neg_lit a; b; nk k];
                         mkclause [a; neg_lit b; nk k]; mkclause [a; b; k]])
     = sat J ca && sat J cb && Bool.eqb (tv J k) (Bool.eqb (tv J a) (tv J b)).
-  Proof. norm_sat. fold (sat J ca) (sat J cb). destruct (sat J ca); destruct (sat J cb); destruct (tv J k); destruct (tv J a); destruct (tv J b); reflexivity. Qed.
-  Lemma sat_ite J k i a b ci ca cb :
+  Proof. intros HP. norm_sat. fold (sat J ca) (sat J cb). destruct (sat J ca); destruct (sat J cb); destruct (tv J k); destruct (tv J a); destruct (tv J b); reflexivity. Qed.
+  Lemma sat_ite J k i a b ci ca cb : Pi J ->
     sat J (ci ++ ca ++ cb ++ [mkclause [neg_lit i; neg_lit a; k]; mkclause [neg_lit i; a; nk k];
                               mkclause [i; neg_lit b; k]; mkclause [i; b; nk k]])
     = sat J ci && sat J ca && sat J cb && Bool.eqb (tv J k) (if tv J i then tv J a else tv J b).
-  Proof.
+  Proof. intros HP.
     norm_sat. fold (sat J ci) (sat J ca) (sat J cb).
     destruct (sat J ci); destruct (sat J ca); destruct (sat J cb); destruct (tv J k); destruct (tv J i); destruct (tv J a); destruct (tv J b); reflexivity.
   Qed.
@@ -459,9 +467,9 @@ Section Proofs.
     match r with
     | PH => True
     | R key cl =>
-        (forall I, NoDup (map snd M) -> leaf_stable I M t ->
+        (forall I, Pi I -> NoDup (map snd M) -> leaf_stable I M t ->
                    sat (ext I M) cl = true /\ tv (ext I M) key = tv I t) /\
-        (forall J, sat J cl = true -> tv J key = tv J t) /\
+        (forall J, Pi J -> sat J cl = true -> tv J key = tv J t) /\
         (cl = [] \/ symlit (map snd M) key) /\
         LitsOk M t key cl
     end.
@@ -538,17 +546,17 @@ Section Proofs.
                             :: flat_map (fun p => mkclause [fst p; nk (TSym n TBool)] :: snd p) ps)).
   Proof.
     intros Hin HF. unfold Good. split; [|split; [|split]].
-    - intros I Hnd Hls. rewrite sat_and_clauses, (tv_ext_key I M _ n Hnd Hin), tv_and.
+    - intros I HPI Hnd Hls. pose proof (Pi_ext I M HPI) as HPE. rewrite sat_and_clauses by assumption. rewrite (tv_ext_key I M _ n Hnd Hin), tv_and.
       assert (HC : Forall2 (fun x p => sat (ext I M) (snd p) = true /\ tv (ext I M) (fst p) = tv I x) args ps).
       { clear Hin. induction HF as [|x p args ps Hxp HF IH]; constructor.
         - destruct Hxp as (C & _). apply C; auto. eapply leaf_stable_arg; eauto; [reflexivity|now left].
         - apply IH. intros a Ha. apply Hls. cbn in *. apply in_or_app. now right. }
       destruct (children_C _ _ _ _ HC) as (A & B & _). rewrite A, B, eqb_reflx. auto.
-    - intros J Hs. rewrite sat_and_clauses in Hs. apply andb_true_iff in Hs. destruct Hs as [He Hc].
+    - intros J HPJ Hs. rewrite sat_and_clauses in Hs by assumption. apply andb_true_iff in Hs. destruct Hs as [He Hc].
       apply eqb_prop in He. rewrite He, tv_and.
       apply (children_S J args ps); auto.
-      clear - HF. induction HF as [|x p args ps Hxp HF IH]; constructor; auto.
-      destruct Hxp as (_ & S & _). exact (S J).
+      clear - HF HPJ. induction HF as [|x p args ps Hxp HF IH]; constructor; auto.
+      destruct Hxp as (_ & S & _). exact (S J HPJ).
     - right. exists n. split; [eapply In_names; eauto | auto].
     - intros P Hc Hs HT HFa Hl. destruct (Hs n (In_names _ _ _ Hin)) as [Pk Pnk]. split; auto.
       pose proof (children_lits M OAnd args ps P eq_refl HF Hc Hs HT HFa Hl) as Hch.
@@ -568,17 +576,17 @@ Section Proofs.
                             :: flat_map (fun p => mkclause [TSym n TBool; mk_not (fst p)] :: snd p) ps)).
   Proof.
     intros Hin HF. unfold Good. split; [|split; [|split]].
-    - intros I Hnd Hls. rewrite sat_or_clauses, (tv_ext_key I M _ n Hnd Hin), tv_or.
+    - intros I HPI Hnd Hls. pose proof (Pi_ext I M HPI) as HPE. rewrite sat_or_clauses by assumption. rewrite (tv_ext_key I M _ n Hnd Hin), tv_or.
       assert (HC : Forall2 (fun x p => sat (ext I M) (snd p) = true /\ tv (ext I M) (fst p) = tv I x) args ps).
       { clear Hin. induction HF as [|x p args ps Hxp HF IH]; constructor.
         - destruct Hxp as (C & _). apply C; auto. eapply leaf_stable_arg; eauto; [reflexivity|now left].
         - apply IH. intros a Ha. apply Hls. cbn in *. apply in_or_app. now right. }
       destruct (children_C _ _ _ _ HC) as (A & _ & B). rewrite A, B, eqb_reflx. auto.
-    - intros J Hs. rewrite sat_or_clauses in Hs. apply andb_true_iff in Hs. destruct Hs as [He Hc].
+    - intros J HPJ Hs. rewrite sat_or_clauses in Hs. apply andb_true_iff in Hs. destruct Hs as [He Hc].
       apply eqb_prop in He. rewrite He, tv_or.
       apply (children_S J args ps); auto.
-      clear - HF. induction HF as [|x p args ps Hxp HF IH]; constructor; auto.
-      destruct Hxp as (_ & S & _). exact (S J).
+      clear - HF HPJ. induction HF as [|x p args ps Hxp HF IH]; constructor; auto.
+      destruct Hxp as (_ & S & _). exact (S J HPJ).
     - right. exists n. split; [eapply In_names; eauto | auto].
     - intros P Hc Hs HT HFa Hl. destruct (Hs n (In_names _ _ _ Hin)) as [Pk Pnk]. split; auto.
       pose proof (children_lits M OOr args ps P eq_refl HF Hc Hs HT HFa Hl) as Hch.
@@ -605,22 +613,22 @@ Section Proofs.
     destruct (ctrue a) eqn:Et; [|destruct (cfalse a) eqn:Ef].
     - assert (c = []) as ->. { destruct K as [|K]; auto. apply symlit_not_const in K. destruct K. congruence. }
       split; [|split; [|split]].
-      + intros I Hnd Hl. split; auto. destruct (C I Hnd (Hls I Hl)) as [_ Ha].
+      + intros I HPI Hnd Hl. pose proof (Pi_ext I M HPI) as HPE. split; auto. destruct (C I HPI Hnd (Hls I Hl)) as [_ Ha].
         rewrite tv_not, <- Ha, (ctrue_tv _ _ Et). reflexivity.
-      + intros J _. rewrite tv_not, <- (S J eq_refl), (ctrue_tv _ _ Et). reflexivity.
+      + intros J HPJ _. rewrite tv_not, <- (S J HPJ eq_refl), (ctrue_tv _ _ Et). reflexivity.
       + now left.
       + intros P _ _ _ HF _. split; auto.
     - assert (c = []) as ->. { destruct K as [|K]; auto. apply symlit_not_const in K. destruct K. congruence. }
       split; [|split; [|split]].
-      + intros I Hnd Hl. split; auto. destruct (C I Hnd (Hls I Hl)) as [_ Ha].
+      + intros I HPI Hnd Hl. pose proof (Pi_ext I M HPI) as HPE. split; auto. destruct (C I HPI Hnd (Hls I Hl)) as [_ Ha].
         rewrite tv_not, <- Ha, (cfalse_tv _ _ Ef). reflexivity.
-      + intros J _. rewrite tv_not, <- (S J eq_refl), (cfalse_tv _ _ Ef). reflexivity.
+      + intros J HPJ _. rewrite tv_not, <- (S J HPJ eq_refl), (cfalse_tv _ _ Ef). reflexivity.
       + now left.
       + intros P _ _ HT _ _. split; auto.
     - split; [|split; [|split]].
-      + intros I Hnd Hl. destruct (C I Hnd (Hls I Hl)) as [Hc Ha]. split; auto.
-        now rewrite neg_lit_tv, tv_not, Ha.
-      + intros J Hs. now rewrite neg_lit_tv, tv_not, (S J Hs).
+      + intros I HPI Hnd Hl. pose proof (Pi_ext I M HPI) as HPE. destruct (C I HPI Hnd (Hls I Hl)) as [Hc Ha]. split; auto.
+        rewrite neg_lit_tv by assumption. now rewrite tv_not, Ha.
+      + intros J HPJ Hs. rewrite neg_lit_tv by assumption. now rewrite tv_not, (S J HPJ Hs).
       + destruct K as [|K]; auto. right. now apply symlit_neg.
       + intros P Hc Hs HT HF Hl. destruct (L P Hc Hs HT HF (fun a0 H => Hl a0 (Hlv a0 H))) as [Pa Pc].
         split; auto. now apply Hc.
@@ -631,15 +639,15 @@ Section Proofs.
   Proof.
     intros Ho Htv H. destruct r as [|key cl]; auto. destruct H as (C & S & K & L).
     split; [|split; [|split]]; auto.
-    - intros I Hnd Hl. rewrite Htv. apply C; auto. eapply leaf_stable_arg; eauto. now left.
-    - intros J Hs. rewrite Htv. auto.
+    - intros I HPI Hnd Hl. pose proof (Pi_ext I M HPI) as HPE. rewrite Htv. apply C; auto. eapply leaf_stable_arg; eauto. now left.
+    - intros J HPJ Hs. rewrite Htv. auto.
     - intros P Hc Hs HT HF Hl. apply L; auto. intros a Ha. apply Hl. eapply leaves_arg; eauto. now left.
   Qed.
 
   Lemma leaf_good M o args : is_connective o = false -> Good M (T o args) (R (T o args) []).
   Proof.
     intros Ho. split; [|split; [|split]]; auto.
-    - intros I _ Hl. split; auto. apply Hl. cbn. rewrite Ho. now left.
+    - intros I _ _ Hl. split; auto. apply Hl. cbn. rewrite Ho. now left.
     - intros P _ _ _ _ Hl. split; auto. apply Hl. cbn. rewrite Ho. now left.
   Qed.
 
@@ -655,12 +663,12 @@ Section Proofs.
                                          mkclause [neg_lit b; TSym n TBool]])).
   Proof.
     intros Hin (Ca & Sa & _ & La) (Cb & Sb & _ & Lb). split; [|split; [|split]].
-    - intros I Hnd Hl. rewrite sat_implies, (tv_ext_key I M _ n Hnd Hin), tv_implies.
-      destruct (Ca I Hnd) as [-> ->]; [child_stable Hl|]. destruct (Cb I Hnd) as [-> ->]; [child_stable Hl|].
+    - intros I HPI Hnd Hl. pose proof (Pi_ext I M HPI) as HPE. rewrite sat_implies by assumption. rewrite (tv_ext_key I M _ n Hnd Hin), tv_implies.
+      destruct (Ca I HPI Hnd) as [-> ->]; [child_stable Hl|]. destruct (Cb I HPI Hnd) as [-> ->]; [child_stable Hl|].
       now rewrite eqb_reflx.
-    - intros J Hs. rewrite sat_implies in Hs. apply andb_true_iff in Hs. destruct Hs as [Hs He].
+    - intros J HPJ Hs. rewrite sat_implies in Hs by assumption. apply andb_true_iff in Hs. destruct Hs as [Hs He].
       apply andb_true_iff in Hs. destruct Hs as [Ha Hb]. apply eqb_prop in He.
-      now rewrite He, tv_implies, (Sa J Ha), (Sb J Hb).
+      now rewrite He, tv_implies, (Sa J HPJ Ha), (Sb J HPJ Hb).
     - right. exists n. split; [eapply In_names; eauto|auto].
     - intros P Hc Hs HT HF Hl. destruct (Hs n (In_names _ _ _ Hin)) as [Pk Pnk].
       destruct (La P Hc Hs HT HF) as [Pa Pca]; [intros a0 H0; apply Hl; eapply leaves_arg; eauto; cbn; tauto|].
@@ -676,12 +684,12 @@ Section Proofs.
                                          mkclause [a; neg_lit b; nk (TSym n TBool)]; mkclause [a; b; TSym n TBool]])).
   Proof.
     intros Hin (Ca & Sa & _ & La) (Cb & Sb & _ & Lb). split; [|split; [|split]].
-    - intros I Hnd Hl. rewrite sat_iff, (tv_ext_key I M _ n Hnd Hin), tv_iff.
-      destruct (Ca I Hnd) as [-> ->]; [child_stable Hl|]. destruct (Cb I Hnd) as [-> ->]; [child_stable Hl|].
+    - intros I HPI Hnd Hl. pose proof (Pi_ext I M HPI) as HPE. rewrite sat_iff by assumption. rewrite (tv_ext_key I M _ n Hnd Hin), tv_iff.
+      destruct (Ca I HPI Hnd) as [-> ->]; [child_stable Hl|]. destruct (Cb I HPI Hnd) as [-> ->]; [child_stable Hl|].
       now rewrite eqb_reflx.
-    - intros J Hs. rewrite sat_iff in Hs. apply andb_true_iff in Hs. destruct Hs as [Hs He].
+    - intros J HPJ Hs. rewrite sat_iff in Hs by assumption. apply andb_true_iff in Hs. destruct Hs as [Hs He].
       apply andb_true_iff in Hs. destruct Hs as [Ha Hb]. apply eqb_prop in He.
-      now rewrite He, tv_iff, (Sa J Ha), (Sb J Hb).
+      now rewrite He, tv_iff, (Sa J HPJ Ha), (Sb J HPJ Hb).
     - right. exists n. split; [eapply In_names; eauto|auto].
     - intros P Hc Hs HT HF Hl. destruct (Hs n (In_names _ _ _ Hin)) as [Pk Pnk].
       destruct (La P Hc Hs HT HF) as [Pa Pca]; [intros a0 H0; apply Hl; eapply leaves_arg; eauto; cbn; tauto|].
@@ -698,19 +706,19 @@ Section Proofs.
                              mkclause [i; neg_lit b; TSym n TBool]; mkclause [i; b; nk (TSym n TBool)]])).
   Proof.
     intros Hin (Ci & Si & _ & Li) (Ca & Sa & _ & La) (Cb & Sb & _ & Lb). split; [|split; [|split]].
-    - intros I Hnd Hl. rewrite sat_ite, (tv_ext_key I M _ n Hnd Hin), tv_ite.
-      destruct (Ci I Hnd) as [-> ->]; [child_stable Hl|].
-      destruct (Ca I Hnd) as [-> ->]; [child_stable Hl|]. destruct (Cb I Hnd) as [-> ->]; [child_stable Hl|].
+    - intros I HPI Hnd Hl. pose proof (Pi_ext I M HPI) as HPE. rewrite sat_ite by assumption. rewrite (tv_ext_key I M _ n Hnd Hin), tv_ite.
+      destruct (Ci I HPI Hnd) as [-> ->]; [child_stable Hl|].
+      destruct (Ca I HPI Hnd) as [-> ->]; [child_stable Hl|]. destruct (Cb I HPI Hnd) as [-> ->]; [child_stable Hl|].
       now rewrite eqb_reflx.
-    - intros J Hs. rewrite sat_ite in Hs. apply andb_true_iff in Hs. destruct Hs as [Hs He].
+    - intros J HPJ Hs. rewrite sat_ite in Hs by assumption. apply andb_true_iff in Hs. destruct Hs as [Hs He].
       apply andb_true_iff in Hs. destruct Hs as [Hs Hb]. apply andb_true_iff in Hs. destruct Hs as [Hi Ha].
-      apply eqb_prop in He. now rewrite He, tv_ite, (Si J Hi), (Sa J Ha), (Sb J Hb).
+      apply eqb_prop in He. now rewrite He, tv_ite, (Si J HPJ Hi), (Sa J HPJ Ha), (Sb J HPJ Hb).
     - right. exists n. split; [eapply In_names; eauto|auto].
     - intros P Hc Hs HT HF Hl. destruct (Hs n (In_names _ _ _ Hin)) as [Pk Pnk].
-      destruct (Li P Hc Hs HT HF) as [Pi Pci]; [intros a0 H0; apply Hl; eapply leaves_arg; eauto; cbn; tauto|].
+      destruct (Li P Hc Hs HT HF) as [Pii Pci]; [intros a0 H0; apply Hl; eapply leaves_arg; eauto; cbn; tauto|].
       destruct (La P Hc Hs HT HF) as [Pa Pca]; [intros a0 H0; apply Hl; eapply leaves_arg; eauto; cbn; tauto|].
       destruct (Lb P Hc Hs HT HF) as [Pb Pcb]; [intros a0 H0; apply Hl; eapply leaves_arg; eauto; cbn; tauto|].
-      pose proof (Hc i Pi) as [Pni _]. pose proof (Hc a Pa) as [Pna _]. pose proof (Hc b Pb) as [Pnb _].
+      pose proof (Hc i Pii) as [Pni _]. pose proof (Hc a Pa) as [Pna _]. pose proof (Hc b Pb) as [Pnb _].
       split; auto. lits_tac.
   Qed.
 
@@ -847,8 +855,8 @@ Section Proofs.
   (* ---------------------------------------------------------------- top level: convert *)
   (* what the clean-up needs from a walk (both converters provide it) *)
   Definition TopGood (M : list (term * string)) (f key : term) (cl : list (list term)) : Prop :=
-    (forall I, NoDup (map snd M) -> leaf_stable I M f -> sat (ext I M) cl = true /\ tv (ext I M) key = tv I f) /\
-    (forall J, sat J cl = true -> tv J key = true -> tv J f = true) /\
+    (forall I, Pi I -> NoDup (map snd M) -> leaf_stable I M f -> sat (ext I M) cl = true /\ tv (ext I M) key = tv I f) /\
+    (forall J, Pi J -> sat J cl = true -> tv J key = true -> tv J f = true) /\
     (cl = [] \/ symlit (map snd M) key) /\
     LitsOk M f key cl.
   Definition walk_ok (w : term -> cstate -> option (res * cstate)) (f : term) : Prop :=
@@ -858,7 +866,7 @@ Section Proofs.
   Proof.
     intros st key cl st' H. destruct (cnf_walk_good _ _ _ _ H) as [L G]. split; auto.
     destruct (G _ (extends_refl _)) as (C & S & K & Li). split; [|split; [|split]]; auto.
-    intros J Hs Hk. now rewrite <- (S J Hs).
+    intros J HPJ Hs Hk. now rewrite <- (S J HPJ Hs).
   Qed.
 
   (* I' agrees with I except on the symbols named in N *)
@@ -891,9 +899,9 @@ Section Proofs.
     intros n Hn Hin. apply (Hf n Hn). eapply leaves_fv; eauto.
   Qed.
   Lemma fresh_leaf_litok (M : list (term * string)) f : (forall n, In n (map snd M) -> ~ In (n, TBool) (fv f)) ->
-    forall a, In a (leaves f) -> litok (map snd M) a.
+    forall a, In a (leaves f) -> litok Pi (map snd M) a.
   Proof.
-    intros Hf a Ha. right. intros J J' HJ. unfold tv. f_equal. apply (same_off_eval (map snd M)); auto.
+    intros Hf a Ha. right. intros J J' _ _ HJ. unfold tv. f_equal. apply (same_off_eval (map snd M)); auto.
     intros n Hn Hin. apply (Hf n Hn). eapply leaves_fv; eauto.
   Qed.
 
@@ -902,24 +910,24 @@ Section Proofs.
 
   (* a clause that the clean-up empties is false wherever the top literal is true: this is why
      returning FALSE_CNF there keeps completeness *)
-  Lemma emptied_clause_false E tl c : tv E tl = true ->
+  Lemma emptied_clause_false E tl c : Pi E -> tv E tl = true ->
     clean_clause tl (neg_lit tl) c = Some [] -> csat E c = false.
   Proof.
-    intros Ht Hcc. unfold clean_clause in Hcc.
+    intros HP Ht Hcc. unfold clean_clause in Hcc.
     destruct (existsb (fun l => ctrue l || term_eqb l tl) c); [discriminate|]. injection Hcc as Ef.
     destruct (csat E c) eqn:Hcs; auto. exfalso.
     apply csat_true_iff in Hcs. destruct Hcs as (l & Hl & Hv).
     assert (Hin : In l (filter (fun l => negb (term_eqb l (neg_lit tl)) && negb (cfalse l)) c)).
     { apply filter_In. split; auto. apply andb_true_iff. split; apply negb_true_iff.
       - destruct (term_eqb l (neg_lit tl)) eqn:Eq; auto. apply term_eqb_eq in Eq. subst.
-        rewrite neg_lit_tv, Ht in Hv. discriminate.
+        rewrite neg_lit_tv in Hv by assumption. rewrite Ht in Hv. discriminate.
       - destruct (cfalse l) eqn:Eq; auto. rewrite (cfalse_tv _ _ Eq) in Hv. discriminate. }
     rewrite Ef in Hin. destruct Hin.
   Qed.
 
-  Lemma cleanup_complete E tl cl : sat E cl = true -> tv E tl = true -> sat E (cleanup asimp tl cl) = true.
+  Lemma cleanup_complete E tl cl : Pi E -> sat E cl = true -> tv E tl = true -> sat E (cleanup asimp tl cl) = true.
   Proof.
-    intros Hs Ht. unfold cleanup. destruct cl as [|c0 cl0] eqn:Ecl.
+    intros HP Hs Ht. unfold cleanup. destruct cl as [|c0 cl0] eqn:Ecl.
     - cbn. now rewrite Ht.
     - rewrite <- Ecl in *. clear Ecl c0 cl0. destruct (existsb is_nil cl) eqn:En.
       + apply existsb_exists in En. destruct En as (c & Hc & Hn). destruct c; [|discriminate].
@@ -927,7 +935,7 @@ Section Proofs.
       + cbn [orb]. destruct (has_emptied asimp tl cl) eqn:Eh.
         { exfalso. unfold has_emptied in Eh. apply existsb_exists in Eh. destruct Eh as (c & Hc & Hcc).
           destruct (clean_clause tl (neg_lit tl) c) as [[|x r]|] eqn:Ecc; try discriminate.
-          pose proof (sat_In _ _ _ Hs Hc) as Hcs. rewrite (emptied_clause_false E tl c Ht Ecc) in Hcs. discriminate. }
+          pose proof (sat_In _ _ _ Hs Hc) as Hcs. rewrite (emptied_clause_false E tl c HP Ht Ecc) in Hcs. discriminate. }
         unfold sat. apply forallb_forall. intros c' Hc'. apply in_flat_map in Hc'. destruct Hc' as (c & Hc & Hin).
         unfold clean_clause in Hin. destruct (existsb (fun l => ctrue l || term_eqb l tl) c); [destruct Hin|].
         destruct (filter (fun l => negb (term_eqb l (neg_lit tl)) && negb (cfalse l)) c) as [|x r] eqn:Ef; [destruct Hin|].
@@ -935,22 +943,22 @@ Section Proofs.
         pose proof (sat_In _ _ _ Hs Hc) as Hcs. apply csat_true_iff in Hcs. destruct Hcs as (l & Hl & Hv).
         exists l. split; auto. apply filter_In. split; auto. apply andb_true_iff. split; apply negb_true_iff.
         * destruct (term_eqb l (neg_lit tl)) eqn:Eq; auto. apply term_eqb_eq in Eq. subst.
-          rewrite neg_lit_tv, Ht in Hv. discriminate.
+          rewrite neg_lit_tv in Hv by assumption. rewrite Ht in Hv. discriminate.
         * destruct (cfalse l) eqn:Eq; auto. rewrite (cfalse_tv _ _ Eq) in Hv. discriminate.
   Qed.
 
   (* C11, completeness: every interpretation satisfying the input extends over the fresh symbols
      to one satisfying the output *)
   Theorem convert_complete w f st cl st' I : walk_ok w f -> start_ok f st ->
-    convert_with asimp w f st = Some (cl, st') -> holds I f ->
+    convert_with asimp w f st = Some (cl, st') -> Pi I -> holds I f ->
     exists I', agrees_off (map snd (intro st')) I I' /\ sat I' cl = true /\
                (forall n, In n (map snd (intro st')) -> ~ In n (mnames (mgr st))).
   Proof.
-    intros Hw Hst Hc Hf. unfold convert_with in Hc.
+    intros Hw Hst Hc HPI Hf. unfold convert_with in Hc.
     destruct (w f st) as [[[|tl cl0] s1]|] eqn:E; try discriminate. injection Hc as <- <-.
     destruct (Hw _ _ _ _ E) as [Hle (C & _)]. destruct (start_facts _ _ _ Hst Hle) as [Hnd Hfr].
     exists (ext I (intro s1)). split; [apply ext_agrees|]. split; [|intros n Hn; apply Hfr; auto].
-    destruct (C I Hnd) as [Hs Hk]; [apply fresh_leaf_stable; intros n Hn; apply Hfr; auto|].
+    destruct (C I HPI Hnd) as [Hs Hk]; [apply fresh_leaf_stable; intros n Hn; apply Hfr; auto|].
     apply cleanup_complete; auto. rewrite Hk. now apply holds_tv.
   Qed.
 
@@ -968,12 +976,12 @@ Section Proofs.
   Qed.
 
   Lemma cleanup_sound N f tl cl J :
-    (forall J', sat J' cl = true -> tv J' tl = true -> tv J' f = true) ->
-    (cl = [] \/ symlit N tl) -> Forall (Forall (litok N)) cl ->
+    (forall J', Pi J' -> sat J' cl = true -> tv J' tl = true -> tv J' f = true) -> Pi J ->
+    (cl = [] \/ symlit N tl) -> Forall (Forall (litok Pi N)) cl ->
     (forall n, In n N -> ~ In (n, TBool) (fv f)) ->
     sat J (cleanup asimp tl cl) = true -> tv J f = true.
   Proof.
-    intros S K L Hfr Hs. unfold cleanup in Hs.
+    intros S HPJ K L Hfr Hs. unfold cleanup in Hs.
     destruct cl as [|c0 cl0] eqn:Ecl.
     - cbn in Hs. rewrite orb_false_r, andb_true_r in Hs. apply S; auto.
     - rewrite <- Ecl in *. destruct K as [K|K]; [congruence|]. clear Ecl c0 cl0.
@@ -983,6 +991,7 @@ Section Proofs.
       set (b := match tl with T ONot _ => false | _ => true end).
       set (J' := bind1 J (n, TBool) (VBool b)).
       assert (HJ : same_off N J J') by (apply bind1_same_off; auto).
+      assert (HPJ' : Pi J') by (apply Pi_bind; auto).
       assert (Ht : tv J' tl = true).
       { destruct Htl as [-> | ->]; subst b J'; rewrite ?tv_not, tv_sym; cbn; now rewrite String.eqb_refl. }
       assert (Hntl : neg_lit tl = TSym n TBool \/ neg_lit tl = T ONot [TSym n TBool]).
@@ -1018,21 +1027,21 @@ Section Proofs.
               { destruct Htl as [-> | ->]; destruct Hlm as [-> | ->]; auto. }
               destruct H as [-> | ->]; [rewrite term_eqb_refl in Hl2 | rewrite term_eqb_refl in Hl1]; discriminate.
             * subst J'. rewrite (tv_bind1_other J n b l m); auto. intros ->. rewrite String.eqb_refl in Emn. discriminate.
-          + rewrite <- (Hst J J' HJ). exact Hv.
+          + rewrite <- (Hst J J' HPJ HPJ' HJ). exact Hv.
         - unfold clean_clause in Ecc.
           destruct (existsb (fun l => ctrue l || term_eqb l tl) c) eqn:Ex; [|discriminate].
           apply existsb_exists in Ex. destruct Ex as (l & Hl & Hor). apply csat_true_iff. exists l. split; auto.
           apply orb_true_iff in Hor. destruct Hor as [H|H]; [now apply ctrue_tv|].
           apply term_eqb_eq in H. now subst. }
-      pose proof (S J' Hs' Ht) as Hf. unfold tv in *. rewrite (same_off_eval N J J' f HJ Hfr). exact Hf.
+      pose proof (S J' HPJ' Hs' Ht) as Hf. unfold tv in *. rewrite (same_off_eval N J J' f HJ Hfr). exact Hf.
   Qed.
 
   Lemma top_lits_ok w f st key cl st' : walk_ok w f -> start_ok f st -> w f st = Some (R key cl, st') ->
-    Forall (Forall (litok (map snd (intro st')))) cl.
+    Forall (Forall (litok Pi (map snd (intro st')))) cl.
   Proof.
     intros Hw Hst E. destruct (Hw _ _ _ _ E) as [Hle (_ & _ & _ & Li)].
     destruct (start_facts _ _ _ Hst Hle) as [_ Hfr].
-    apply (Li (litok (map snd (intro st')))).
+    apply (Li (litok Pi (map snd (intro st')))).
     - intros a Ha. now apply litok_neg.
     - intros n Hn. split; left; exists n; auto.
     - right. intros J J' _. reflexivity.
@@ -1042,9 +1051,9 @@ Section Proofs.
 
   (* C11, soundness: every interpretation satisfying the output satisfies the input *)
   Theorem convert_sound w f st cl st' J : walk_ok w f -> start_ok f st ->
-    convert_with asimp w f st = Some (cl, st') -> sat J cl = true -> holds J f.
+    convert_with asimp w f st = Some (cl, st') -> Pi J -> sat J cl = true -> holds J f.
   Proof.
-    intros Hw Hst Hc Hs. unfold convert_with in Hc.
+    intros Hw Hst Hc HPJ Hs. unfold convert_with in Hc.
     destruct (w f st) as [[[|tl cl0] s1]|] eqn:E; try discriminate. injection Hc as <- <-.
     pose proof (top_lits_ok _ _ _ _ _ _ Hw Hst E) as L.
     destruct (Hw _ _ _ _ E) as [Hle (_ & S & K & _)]. destruct (start_facts _ _ _ Hst Hle) as [_ Hfr].
@@ -1173,9 +1182,9 @@ Section Proofs.
     match r with
     | PH => True
     | R key cl =>
-        (forall I, NoDup (map snd M) -> leaf_stable I M t ->
+        (forall I, Pi I -> NoDup (map snd M) -> leaf_stable I M t ->
                    sat (ext I M) cl = true /\ tv (ext I M) key = tv I t) /\
-        (forall J, sat J cl = true ->
+        (forall J, Pi J -> sat J cl = true ->
                    if pol then tv J key = true -> tv J t = true else tv J t = true -> tv J key = true) /\
         (cl = [] \/ symlit (map snd M) key) /\
         LitsOk M t key cl /\
@@ -1210,11 +1219,11 @@ Section Proofs.
   Qed.
 
   Lemma childrenP_C M pol o I args (ps : list (term * list (list term))) :
-    is_connective o = true -> NoDup (map snd M) -> leaf_stable I M (T o args) ->
+    is_connective o = true -> Pi I -> NoDup (map snd M) -> leaf_stable I M (T o args) ->
     Forall2 (fun x p => GoodP M pol x (R (fst p) (snd p))) args ps ->
     Forall2 (fun x p => sat (ext I M) (snd p) = true /\ tv (ext I M) (fst p) = tv I x) args ps.
   Proof.
-    intros Ho Hnd Hls HF.
+    intros Ho HPI Hnd Hls HF.
     assert (G : forall x, In x args -> leaf_stable I M x) by (intros x Hx; eapply leaf_stable_arg; eauto).
     clear Hls. induction HF as [|x p args ps Hxp HF IH]; constructor.
     - destruct Hxp as (C & _). apply C; auto. apply G. now left.
@@ -1259,22 +1268,22 @@ Section Proofs.
                               else [mkclause (TSym n TBool :: map (fun p => neg_lit (fst p)) ps)]))).
   Proof.
     intros Hin Has Hne HF. unfold GoodP. split; [|split; [|split; [|split]]].
-    - intros I Hnd Hls. rewrite sat_app, sat_flat_snd.
-      destruct (children_C _ _ _ _ (childrenP_C M pol OAnd I args ps eq_refl Hnd Hls HF)) as (A & B & _).
+    - intros I HPI Hnd Hls. pose proof (Pi_ext I M HPI) as HPE. rewrite sat_app, sat_flat_snd.
+      destruct (children_C _ _ _ _ (childrenP_C M pol OAnd I args ps eq_refl HPI Hnd Hls HF)) as (A & B & _).
       rewrite A, (tv_ext_key I M _ n Hnd Hin), tv_and. split; auto. cbn [andb].
-      destruct pol; [rewrite sat_pol_and_pos | rewrite sat_pol_and_neg];
+      destruct pol; [rewrite sat_pol_and_pos | rewrite sat_pol_and_neg by assumption];
         rewrite (tv_ext_key I M _ n Hnd Hin), tv_and, B; destruct (forallb (tv I) args); reflexivity.
-    - intros J Hs. rewrite sat_app, sat_flat_snd in Hs. apply andb_true_iff in Hs. destruct Hs as [Hc Hk].
+    - intros J HPJ Hs. rewrite sat_app, sat_flat_snd in Hs. apply andb_true_iff in Hs. destruct Hs as [Hc Hk].
       rewrite tv_and. destruct pol.
       + rewrite sat_pol_and_pos in Hk. intros Ht. rewrite Ht in Hk. cbn in Hk.
         refine (proj1 (mono_pos J args ps _ Hc) Hk).
-        clear - HF. induction HF as [|x p args ps Hxp HF IH]; constructor; auto.
-        destruct Hxp as (_ & S & _). exact (S J).
-      + rewrite sat_pol_and_neg in Hk. intros Ht.
+        clear - HF HPJ. induction HF as [|x p args ps Hxp HF IH]; constructor; auto.
+        destruct Hxp as (_ & S & _). exact (S J HPJ).
+      + rewrite sat_pol_and_neg in Hk by assumption. intros Ht.
         assert (X : forallb (fun p => tv J (fst p)) ps = true).
         { refine (proj1 (mono_neg J args ps _ Hc) Ht).
-          clear - HF. induction HF as [|x p args ps Hxp HF IH]; constructor; auto.
-          destruct Hxp as (_ & S & _). exact (S J). }
+          clear - HF HPJ. induction HF as [|x p args ps Hxp HF IH]; constructor; auto.
+          destruct Hxp as (_ & S & _). exact (S J HPJ). }
         rewrite X in Hk. exact Hk.
     - right. exists n. split; [eapply In_names; eauto | auto].
     - intros P Hc Hs HT HFa Hl. destruct (Hs n (In_names _ _ _ Hin)) as [Pk Pnk]. split; auto.
@@ -1297,22 +1306,22 @@ Section Proofs.
                               else map (fun p => mkclause [TSym n TBool; neg_lit (fst p)]) ps))).
   Proof.
     intros Hin Has Hne HF. unfold GoodP. split; [|split; [|split; [|split]]].
-    - intros I Hnd Hls. rewrite sat_app, sat_flat_snd.
-      destruct (children_C _ _ _ _ (childrenP_C M pol OOr I args ps eq_refl Hnd Hls HF)) as (A & _ & B).
+    - intros I HPI Hnd Hls. pose proof (Pi_ext I M HPI) as HPE. rewrite sat_app, sat_flat_snd.
+      destruct (children_C _ _ _ _ (childrenP_C M pol OOr I args ps eq_refl HPI Hnd Hls HF)) as (A & _ & B).
       rewrite A, (tv_ext_key I M _ n Hnd Hin), tv_or. split; auto. cbn [andb].
-      destruct pol; [rewrite sat_pol_or_pos | rewrite sat_pol_or_neg];
+      destruct pol; [rewrite sat_pol_or_pos | rewrite sat_pol_or_neg by assumption];
         rewrite (tv_ext_key I M _ n Hnd Hin), tv_or, B; destruct (existsb (tv I) args); reflexivity.
-    - intros J Hs. rewrite sat_app, sat_flat_snd in Hs. apply andb_true_iff in Hs. destruct Hs as [Hc Hk].
+    - intros J HPJ Hs. rewrite sat_app, sat_flat_snd in Hs. apply andb_true_iff in Hs. destruct Hs as [Hc Hk].
       rewrite tv_or. destruct pol.
       + rewrite sat_pol_or_pos in Hk. intros Ht. rewrite Ht in Hk. cbn in Hk.
         refine (proj2 (mono_pos J args ps _ Hc) Hk).
-        clear - HF. induction HF as [|x p args ps Hxp HF IH]; constructor; auto.
-        destruct Hxp as (_ & S & _). exact (S J).
-      + rewrite sat_pol_or_neg in Hk. intros Ht.
+        clear - HF HPJ. induction HF as [|x p args ps Hxp HF IH]; constructor; auto.
+        destruct Hxp as (_ & S & _). exact (S J HPJ).
+      + rewrite sat_pol_or_neg in Hk by assumption. intros Ht.
         assert (X : existsb (fun p => tv J (fst p)) ps = true).
         { refine (proj2 (mono_neg J args ps _ Hc) Ht).
-          clear - HF. induction HF as [|x p args ps Hxp HF IH]; constructor; auto.
-          destruct Hxp as (_ & S & _). exact (S J). }
+          clear - HF HPJ. induction HF as [|x p args ps Hxp HF IH]; constructor; auto.
+          destruct Hxp as (_ & S & _). exact (S J HPJ). }
         rewrite X in Hk. exact Hk.
     - right. exists n. split; [eapply In_names; eauto | auto].
     - intros P Hc Hs HT HFa Hl. destruct (Hs n (In_names _ _ _ Hin)) as [Pk Pnk]. split; auto.
@@ -1326,31 +1335,31 @@ Section Proofs.
     - symmetry. apply keyfun_nary; auto.
   Qed.
 
-  Lemma sat_pol_implies_pos J k a b ca cb :
+  Lemma sat_pol_implies_pos J k a b ca cb : Pi J ->
     sat J (ca ++ cb ++ [mkclause [neg_lit a; b; nk k]]) = sat J ca && sat J cb && implb (tv J k) (implb (tv J a) (tv J b)).
-  Proof. norm_sat. fold (sat J ca) (sat J cb). destruct (sat J ca); destruct (sat J cb); destruct (tv J k); destruct (tv J a); destruct (tv J b); reflexivity. Qed.
-  Lemma sat_pol_implies_neg J k a b ca cb :
+  Proof. intros HP. norm_sat. fold (sat J ca) (sat J cb). destruct (sat J ca); destruct (sat J cb); destruct (tv J k); destruct (tv J a); destruct (tv J b); reflexivity. Qed.
+  Lemma sat_pol_implies_neg J k a b ca cb : Pi J ->
     sat J (ca ++ cb ++ [mkclause [a; k]; mkclause [neg_lit b; k]]) = sat J ca && sat J cb && implb (implb (tv J a) (tv J b)) (tv J k).
-  Proof. norm_sat. fold (sat J ca) (sat J cb). destruct (sat J ca); destruct (sat J cb); destruct (tv J k); destruct (tv J a); destruct (tv J b); reflexivity. Qed.
-  Lemma sat_iff4 J k a b c1 c2 c3 c4 :
+  Proof. intros HP. norm_sat. fold (sat J ca) (sat J cb). destruct (sat J ca); destruct (sat J cb); destruct (tv J k); destruct (tv J a); destruct (tv J b); reflexivity. Qed.
+  Lemma sat_iff4 J k a b c1 c2 c3 c4 : Pi J ->
     sat J (c1 ++ c2 ++ c3 ++ c4 ++ [mkclause [neg_lit a; neg_lit b; k]; mkclause [neg_lit a; b; nk k];
                                     mkclause [a; neg_lit b; nk k]; mkclause [a; b; k]])
     = sat J c1 && sat J c2 && sat J c3 && sat J c4 && Bool.eqb (tv J k) (Bool.eqb (tv J a) (tv J b)).
-  Proof.
+  Proof. intros HP.
     norm_sat. fold (sat J c1) (sat J c2) (sat J c3) (sat J c4).
     destruct (sat J c1); destruct (sat J c2); destruct (sat J c3); destruct (sat J c4); destruct (tv J k); destruct (tv J a); destruct (tv J b); reflexivity.
   Qed.
-  Lemma sat_pol_ite_pos J k i a b c1 c2 c3 c4 :
+  Lemma sat_pol_ite_pos J k i a b c1 c2 c3 c4 : Pi J ->
     sat J (c1 ++ c2 ++ c3 ++ c4 ++ [mkclause [neg_lit i; a; nk k]; mkclause [i; b; nk k]])
     = sat J c1 && sat J c2 && sat J c3 && sat J c4 && implb (tv J k) (if tv J i then tv J a else tv J b).
-  Proof.
+  Proof. intros HP.
     norm_sat. fold (sat J c1) (sat J c2) (sat J c3) (sat J c4).
     destruct (sat J c1); destruct (sat J c2); destruct (sat J c3); destruct (sat J c4); destruct (tv J k); destruct (tv J i); destruct (tv J a); destruct (tv J b); reflexivity.
   Qed.
-  Lemma sat_pol_ite_neg J k i a b c1 c2 c3 c4 :
+  Lemma sat_pol_ite_neg J k i a b c1 c2 c3 c4 : Pi J ->
     sat J (c1 ++ c2 ++ c3 ++ c4 ++ [mkclause [neg_lit i; neg_lit a; k]; mkclause [i; neg_lit b; k]])
     = sat J c1 && sat J c2 && sat J c3 && sat J c4 && implb (if tv J i then tv J a else tv J b) (tv J k).
-  Proof.
+  Proof. intros HP.
     norm_sat. fold (sat J c1) (sat J c2) (sat J c3) (sat J c4).
     destruct (sat J c1); destruct (sat J c2); destruct (sat J c3); destruct (sat J c4); destruct (tv J k); destruct (tv J i); destruct (tv J a); destruct (tv J b); reflexivity.
   Qed.
@@ -1369,23 +1378,23 @@ Section Proofs.
     destruct (ctrue a) eqn:Et; [|destruct (cfalse a) eqn:Ef].
     - assert (c = []) as ->. { destruct K as [|K]; auto. apply symlit_not_const in K. destruct K. congruence. }
       split; [|split; [|split; [|split]]]; auto.
-      + intros I Hnd Hl. split; auto. destruct (C I Hnd (Hls I Hl)) as [_ Ha].
+      + intros I HPI Hnd Hl. pose proof (Pi_ext I M HPI) as HPE. split; auto. destruct (C I HPI Hnd (Hls I Hl)) as [_ Ha].
         rewrite tv_not, <- Ha, (ctrue_tv _ _ Et). reflexivity.
-      + intros J _. pose proof (S J eq_refl) as SJ. rewrite (ctrue_tv _ _ Et) in SJ. rewrite tv_not.
+      + intros J HPJ _. pose proof (S J HPJ eq_refl) as SJ. rewrite (ctrue_tv _ _ Et) in SJ. rewrite tv_not.
         destruct pol; cbn in SJ |- *; [discriminate|]. intros H. rewrite (SJ eq_refl) in H. discriminate.
       + intros P _ _ _ HF _. split; auto.
     - assert (c = []) as ->. { destruct K as [|K]; auto. apply symlit_not_const in K. destruct K. congruence. }
       split; [|split; [|split; [|split]]]; auto.
-      + intros I Hnd Hl. split; auto. destruct (C I Hnd (Hls I Hl)) as [_ Ha].
+      + intros I HPI Hnd Hl. pose proof (Pi_ext I M HPI) as HPE. split; auto. destruct (C I HPI Hnd (Hls I Hl)) as [_ Ha].
         rewrite tv_not, <- Ha, (cfalse_tv _ _ Ef). reflexivity.
-      + intros J _. pose proof (S J eq_refl) as SJ. rewrite (cfalse_tv _ _ Ef) in SJ. rewrite tv_not.
+      + intros J HPJ _. pose proof (S J HPJ eq_refl) as SJ. rewrite (cfalse_tv _ _ Ef) in SJ. rewrite tv_not.
         destruct pol; cbn in SJ |- *; [|reflexivity]. intros _.
         destruct (tv J x); [specialize (SJ eq_refl); discriminate | reflexivity].
       + intros P _ _ HT _ _. split; auto.
     - split; [|split; [|split; [|split]]]; auto.
-      + intros I Hnd Hl. destruct (C I Hnd (Hls I Hl)) as [Hc Ha]. split; auto.
-        now rewrite neg_lit_tv, tv_not, Ha.
-      + intros J Hs. pose proof (S J Hs) as SJ. rewrite neg_lit_tv, tv_not.
+      + intros I HPI Hnd Hl. pose proof (Pi_ext I M HPI) as HPE. destruct (C I HPI Hnd (Hls I Hl)) as [Hc Ha]. split; auto.
+        rewrite neg_lit_tv by assumption. now rewrite tv_not, Ha.
+      + intros J HPJ Hs. pose proof (S J HPJ Hs) as SJ. rewrite neg_lit_tv by assumption. rewrite tv_not.
         destruct pol; cbn in SJ |- *; destruct (tv J a); destruct (tv J x); auto.
       + destruct K as [|K]; auto. right. now apply symlit_neg.
       + intros P Hc Hs HT HF Hl. destruct (L P Hc Hs HT HF (fun a0 H => Hl a0 (Hlv a0 H))) as [Pa Pc].
@@ -1398,8 +1407,8 @@ Section Proofs.
     intros Ho Htv H. destruct r as [|key cl]; auto. destruct H as (C & S & K & L & Kf).
     assert (Hc : is_connective o = true) by (destruct Ho as [-> | ->]; reflexivity).
     split; [|split; [|split; [|split]]]; auto.
-    - intros I Hnd Hl. rewrite Htv. apply C; auto. eapply leaf_stable_arg; eauto. now left.
-    - intros J Hs. rewrite Htv. exact (S J Hs).
+    - intros I HPI Hnd Hl. pose proof (Pi_ext I M HPI) as HPE. rewrite Htv. apply C; auto. eapply leaf_stable_arg; eauto. now left.
+    - intros J HPJ Hs. rewrite Htv. exact (S J HPJ Hs).
     - intros P Hcl Hs HT HF Hl. apply L; auto. intros a Ha. apply Hl. eapply leaves_arg; eauto. now left.
     - rewrite Kf. destruct Ho as [-> | ->]; reflexivity.
   Qed.
@@ -1407,16 +1416,16 @@ Section Proofs.
   Lemma pol_leaf_good M pol o args : is_connective o = false -> GoodP M pol (T o args) (R (T o args) []).
   Proof.
     intros Ho. split; [|split; [|split; [|split]]]; auto.
-    - intros I _ Hl. split; auto. apply Hl. cbn. rewrite Ho. now left.
-    - intros J _. destruct pol; auto.
+    - intros I _ _ Hl. split; auto. apply Hl. cbn. rewrite Ho. now left.
+    - intros J HPJ _. destruct pol; auto.
     - intros P _ _ _ _ Hl. split; auto. apply Hl. cbn. rewrite Ho. now left.
     - destruct o; try discriminate; reflexivity.
   Qed.
 
   Lemma both_polarities M x a c1 c2 J :
-    GoodP M true x (R a c1) -> GoodP M false x (R a c2) -> sat J c1 = true -> sat J c2 = true -> tv J a = tv J x.
+    Pi J -> GoodP M true x (R a c1) -> GoodP M false x (R a c2) -> sat J c1 = true -> sat J c2 = true -> tv J a = tv J x.
   Proof.
-    intros (_ & S1 & _) (_ & S2 & _) H1 H2. pose proof (S1 J H1) as A. pose proof (S2 J H2) as B. cbn in A, B.
+    intros HPJ (_ & S1 & _) (_ & S2 & _) H1 H2. pose proof (S1 J HPJ H1) as A. pose proof (S2 J HPJ H2) as B. cbn in A, B.
     destruct (tv J a); destruct (tv J x); auto. symmetry. auto.
   Qed.
   Lemma GoodP_key M pol x a c : GoodP M pol x (R a c) -> a = keyfun M x.
@@ -1432,20 +1441,20 @@ Section Proofs.
                                           else [mkclause [a; TSym n TBool]; mkclause [neg_lit b; TSym n TBool]]))).
   Proof.
     intros Hin Has (Ca & Sa & _ & La & _) (Cb & Sb & _ & Lb & _). split; [|split; [|split; [|split]]].
-    - intros I Hnd Hl.
-      destruct (Ca I Hnd) as [Hca Ha]; [child_stable Hl|]. destruct (Cb I Hnd) as [Hcb Hb]; [child_stable Hl|].
+    - intros I HPI Hnd Hl. pose proof (Pi_ext I M HPI) as HPE.
+      destruct (Ca I HPI Hnd) as [Hca Ha]; [child_stable Hl|]. destruct (Cb I HPI Hnd) as [Hcb Hb]; [child_stable Hl|].
       split; [|apply (tv_ext_key I M _ n Hnd Hin)].
-      destruct pol; [rewrite sat_pol_implies_pos | rewrite sat_pol_implies_neg];
+      destruct pol; [rewrite sat_pol_implies_pos by assumption | rewrite sat_pol_implies_neg by assumption];
         rewrite Hca, Hcb, (tv_ext_key I M _ n Hnd Hin), tv_implies, Ha, Hb;
         destruct (tv I x); destruct (tv I y); reflexivity.
-    - intros J Hs. rewrite tv_implies. destruct pol.
-      + rewrite sat_pol_implies_pos in Hs. apply andb_true_iff in Hs. destruct Hs as [Hs He].
+    - intros J HPJ Hs. rewrite tv_implies. destruct pol.
+      + rewrite sat_pol_implies_pos in Hs by assumption. apply andb_true_iff in Hs. destruct Hs as [Hs He].
         apply andb_true_iff in Hs. destruct Hs as [Ha Hb].
-        pose proof (Sa J Ha) as A. pose proof (Sb J Hb) as B. cbn in A, B. intros Hk. rewrite Hk in He.
+        pose proof (Sa J HPJ Ha) as A. pose proof (Sb J HPJ Hb) as B. cbn in A, B. intros Hk. rewrite Hk in He.
         destruct (tv J x); destruct (tv J y); auto. rewrite (A eq_refl) in He. cbn in He. auto.
-      + rewrite sat_pol_implies_neg in Hs. apply andb_true_iff in Hs. destruct Hs as [Hs He].
+      + rewrite sat_pol_implies_neg in Hs by assumption. apply andb_true_iff in Hs. destruct Hs as [Hs He].
         apply andb_true_iff in Hs. destruct Hs as [Ha Hb].
-        pose proof (Sa J Ha) as A. pose proof (Sb J Hb) as B. cbn in A, B. intros Ht.
+        pose proof (Sa J HPJ Ha) as A. pose proof (Sb J HPJ Hb) as B. cbn in A, B. intros Ht.
         destruct (tv J (TSym n TBool)); auto.
         destruct (tv J a) eqn:Ea; [|discriminate]. rewrite (A eq_refl) in Ht. cbn in Ht.
         rewrite (B Ht) in He. discriminate.
@@ -1471,11 +1480,11 @@ Section Proofs.
     pose proof Gap as (Cap & _ & _ & Lap & _). pose proof Gbp as (Cbp & _ & _ & Lbp & _).
     pose proof Gan as (Can & _ & _ & Lan & _). pose proof Gbn as (Cbn & _ & _ & Lbn & _).
     split; [|split; [|split; [|split]]].
-    - intros I Hnd Hl.
-      destruct (Cap I Hnd) as [H1 Ha]; [child_stable Hl|]. destruct (Cbp I Hnd) as [H2 Hb]; [child_stable Hl|].
-      destruct (Can I Hnd) as [H3 _]; [child_stable Hl|]. destruct (Cbn I Hnd) as [H4 _]; [child_stable Hl|].
-      rewrite sat_iff4, H1, H2, H3, H4, (tv_ext_key I M _ n Hnd Hin), tv_iff, Ha, Hb, eqb_reflx. auto.
-    - intros J Hs. rewrite sat_iff4 in Hs.
+    - intros I HPI Hnd Hl. pose proof (Pi_ext I M HPI) as HPE.
+      destruct (Cap I HPI Hnd) as [H1 Ha]; [child_stable Hl|]. destruct (Cbp I HPI Hnd) as [H2 Hb]; [child_stable Hl|].
+      destruct (Can I HPI Hnd) as [H3 _]; [child_stable Hl|]. destruct (Cbn I HPI Hnd) as [H4 _]; [child_stable Hl|].
+      rewrite sat_iff4 by assumption. rewrite H1, H2, H3, H4, (tv_ext_key I M _ n Hnd Hin), tv_iff, Ha, Hb, eqb_reflx. auto.
+    - intros J HPJ Hs. rewrite sat_iff4 in Hs by assumption.
       apply andb_true_iff in Hs. destruct Hs as [Hs He]. apply andb_true_iff in Hs. destruct Hs as [Hs H4].
       apply andb_true_iff in Hs. destruct Hs as [Hs H3]. apply andb_true_iff in Hs. destruct Hs as [H1 H2].
       apply eqb_prop in He. rewrite tv_iff.
@@ -1507,34 +1516,34 @@ Section Proofs.
     pose proof Gip as (Cip & _ & _ & Lip & _). pose proof Gin as (Cin & _ & _ & Lin & _).
     pose proof Ga as (Ca & Sa & _ & La & _). pose proof Gb as (Cb & Sb & _ & Lb & _).
     split; [|split; [|split; [|split]]].
-    - intros I Hnd Hl.
-      destruct (Cip I Hnd) as [H1 Hi]; [child_stable Hl|]. destruct (Cin I Hnd) as [H2 _]; [child_stable Hl|].
-      destruct (Ca I Hnd) as [H3 Ha]; [child_stable Hl|]. destruct (Cb I Hnd) as [H4 Hb]; [child_stable Hl|].
+    - intros I HPI Hnd Hl. pose proof (Pi_ext I M HPI) as HPE.
+      destruct (Cip I HPI Hnd) as [H1 Hi]; [child_stable Hl|]. destruct (Cin I HPI Hnd) as [H2 _]; [child_stable Hl|].
+      destruct (Ca I HPI Hnd) as [H3 Ha]; [child_stable Hl|]. destruct (Cb I HPI Hnd) as [H4 Hb]; [child_stable Hl|].
       split; [|apply (tv_ext_key I M _ n Hnd Hin)].
-      destruct pol; [rewrite sat_pol_ite_pos | rewrite sat_pol_ite_neg];
+      destruct pol; [rewrite sat_pol_ite_pos by assumption | rewrite sat_pol_ite_neg by assumption];
         rewrite H1, H2, H3, H4, (tv_ext_key I M _ n Hnd Hin), tv_ite, Hi, Ha, Hb;
         destruct (tv I x); destruct (tv I y); destruct (tv I z); reflexivity.
-    - intros J Hs. rewrite tv_ite.
+    - intros J HPJ Hs. rewrite tv_ite.
       assert (Ei : sat J cip = true -> sat J cin = true -> tv J i = tv J x).
       { intros A B. destruct pol; [apply (both_polarities M x i cip cin J) | apply (both_polarities M x i cin cip J)]; auto. }
       destruct pol.
-      + rewrite sat_pol_ite_pos in Hs.
+      + rewrite sat_pol_ite_pos in Hs by assumption.
         apply andb_true_iff in Hs. destruct Hs as [Hs He]. apply andb_true_iff in Hs. destruct Hs as [Hs H4].
         apply andb_true_iff in Hs. destruct Hs as [Hs H3]. apply andb_true_iff in Hs. destruct Hs as [H1 H2].
-        pose proof (Sa J H3) as A. pose proof (Sb J H4) as B. cbn in A, B. intros Hk. rewrite Hk, (Ei H1 H2) in He. cbn in He.
+        pose proof (Sa J HPJ H3) as A. pose proof (Sb J HPJ H4) as B. cbn in A, B. intros Hk. rewrite Hk, (Ei H1 H2) in He. cbn in He.
         destruct (tv J x); auto.
-      + rewrite sat_pol_ite_neg in Hs.
+      + rewrite sat_pol_ite_neg in Hs by assumption.
         apply andb_true_iff in Hs. destruct Hs as [Hs He]. apply andb_true_iff in Hs. destruct Hs as [Hs H4].
         apply andb_true_iff in Hs. destruct Hs as [Hs H3]. apply andb_true_iff in Hs. destruct Hs as [H1 H2].
-        pose proof (Sa J H3) as A. pose proof (Sb J H4) as B. cbn in A, B. intros Ht. rewrite (Ei H1 H2) in He.
+        pose proof (Sa J HPJ H3) as A. pose proof (Sb J HPJ H4) as B. cbn in A, B. intros Ht. rewrite (Ei H1 H2) in He.
         destruct (tv J x); [rewrite (A Ht) in He | rewrite (B Ht) in He]; exact He.
     - right. exists n. split; [eapply In_names; eauto|auto].
     - intros P Hc Hs HT HF Hl. destruct (Hs n (In_names _ _ _ Hin)) as [Pk Pnk].
-      destruct (Lip P Hc Hs HT HF) as [Pi Pc1]; [leaves_sub Hl|].
+      destruct (Lip P Hc Hs HT HF) as [Pii Pc1]; [leaves_sub Hl|].
       destruct (Lin P Hc Hs HT HF) as [_ Pc2]; [leaves_sub Hl|].
       destruct (La P Hc Hs HT HF) as [Pa Pc3]; [leaves_sub Hl|].
       destruct (Lb P Hc Hs HT HF) as [Pb Pc4]; [leaves_sub Hl|].
-      pose proof (Hc i Pi) as [Pni _]. pose proof (Hc a Pa) as [Pna _]. pose proof (Hc b Pb) as [Pnb _].
+      pose proof (Hc i Pii) as [Pni _]. pose proof (Hc a Pa) as [Pna _]. pose proof (Hc b Pb) as [Pnb _].
       split; auto. destruct pol; lits_tac.
     - cbn [keyfun]. now rewrite Has.
   Qed.
@@ -1740,10 +1749,72 @@ Section Proofs.
 End Proofs.
 
 (* ================================================================= the C11 theorems (CNF part) *)
+(* the simplifier on atoms preserves truth values under the interpretations in Pi *)
+Definition simp_sound_on (Pi : interp -> Prop) (asimp : term -> term) : Prop :=
+  forall I t, Pi I -> tv I (asimp t) = tv I t.
+(* Pi is closed under giving Boolean values to Boolean symbols (how the proofs build interpretations) *)
+Definition pi_closed (Pi : interp -> Prop) : Prop :=
+  (forall I M, Pi I -> Pi (ext I M)) /\ (forall J n b, Pi J -> Pi (bind1 J (n, TBool) (VBool b))).
 Definition simp_sound (asimp : term -> term) : Prop := forall I t, tv I (asimp t) = tv I t.
 Definition clauses_of_literals (cl : list (list term)) : Prop := Forall (Forall (fun l => litc l = true)) cl.
 (* the names of the symbols introduced by a conversion *)
 Definition introduced (st' : cstate) : list string := map snd (intro st').
+
+Section FinalRel.
+  Variable asimp : term -> term.
+  Variable Pi : interp -> Prop.
+  Hypothesis Hs : simp_sound_on Pi asimp.
+  Hypothesis Hc : pi_closed Pi.
+
+  Theorem cnf_shape_rel f st cl st' : shape_hyp asimp ->
+    cnf_convert asimp f st = Some (cl, st') -> clauses_of_literals cl.
+  Proof. intros Hsh H. exact (convert_shape asimp Pi _ f st cl st' (cnf_walk_ok asimp Pi Hs (proj1 Hc) f) Hsh H). Qed.
+
+  Theorem cnf_complete_rel f st cl st' I : start_ok f st ->
+    cnf_convert asimp f st = Some (cl, st') -> Pi I -> holds I f ->
+    exists I', agrees_off (introduced st') I I' /\ sat I' cl = true /\ holds I' (as_formula cl) /\
+               (forall n, In n (introduced st') -> ~ In n (mnames (mgr st))).
+  Proof.
+    intros Hst H HP Hf.
+    destruct (convert_complete asimp Pi Hs (proj1 Hc) _ f st cl st' I (cnf_walk_ok asimp Pi Hs (proj1 Hc) f) Hst H HP Hf) as (I' & A & B & C).
+    exists I'. repeat split; auto; try apply A. now apply as_formula_holds.
+  Qed.
+
+  Theorem cnf_sound_rel f st cl st' J : start_ok f st ->
+    cnf_convert asimp f st = Some (cl, st') -> Pi J -> sat J cl = true -> holds J f.
+  Proof.
+    intros Hst H HP HJ.
+    exact (convert_sound asimp Pi Hs (proj2 Hc) _ f st cl st' J (cnf_walk_ok asimp Pi Hs (proj1 Hc) f) Hst H HP HJ).
+  Qed.
+
+  Theorem pol_shape_rel f st cl st' : shape_hyp asimp ->
+    pol_convert asimp f st = Some (cl, st') -> clauses_of_literals cl.
+  Proof. intros Hsh H. exact (convert_shape asimp Pi _ f st cl st' (pol_walk_ok asimp Pi Hs (proj1 Hc) f) Hsh H). Qed.
+
+  Theorem pol_complete_rel f st cl st' I : start_ok f st ->
+    pol_convert asimp f st = Some (cl, st') -> Pi I -> holds I f ->
+    exists I', agrees_off (introduced st') I I' /\ sat I' cl = true /\ holds I' (as_formula cl) /\
+               (forall n, In n (introduced st') -> ~ In n (mnames (mgr st))).
+  Proof.
+    intros Hst H HP Hf.
+    destruct (convert_complete asimp Pi Hs (proj1 Hc) _ f st cl st' I (pol_walk_ok asimp Pi Hs (proj1 Hc) f) Hst H HP Hf) as (I' & A & B & C).
+    exists I'. repeat split; auto; try apply A. now apply as_formula_holds.
+  Qed.
+
+  Theorem pol_sound_rel f st cl st' J : start_ok f st ->
+    pol_convert asimp f st = Some (cl, st') -> Pi J -> sat J cl = true -> holds J f.
+  Proof.
+    intros Hst H HP HJ.
+    exact (convert_sound asimp Pi Hs (proj2 Hc) _ f st cl st' J (pol_walk_ok asimp Pi Hs (proj1 Hc) f) Hst H HP HJ).
+  Qed.
+End FinalRel.
+
+(* ---- every interpretation: the simplifier as an unconditional hypothesis ---- *)
+Definition all_interps (I : interp) : Prop := True.
+Lemma all_closed : pi_closed all_interps.
+Proof. split; intros; exact Logic.I. Qed.
+Lemma simp_sound_all asimp : simp_sound asimp -> simp_sound_on all_interps asimp.
+Proof. intros H I t _. apply H. Qed.
 
 Section Final.
   Variable asimp : term -> term.
@@ -1751,38 +1822,26 @@ Section Final.
 
   Theorem cnf_shape f st cl st' : shape_hyp asimp ->
     cnf_convert asimp f st = Some (cl, st') -> clauses_of_literals cl.
-  Proof. intros Hsh H. exact (convert_shape asimp _ f st cl st' (cnf_walk_ok asimp Hs f) Hsh H). Qed.
-
+  Proof. exact (cnf_shape_rel asimp all_interps (simp_sound_all asimp Hs) all_closed f st cl st'). Qed.
   Theorem cnf_complete f st cl st' I : start_ok f st ->
     cnf_convert asimp f st = Some (cl, st') -> holds I f ->
     exists I', agrees_off (introduced st') I I' /\ sat I' cl = true /\ holds I' (as_formula cl) /\
                (forall n, In n (introduced st') -> ~ In n (mnames (mgr st))).
-  Proof.
-    intros Hst H Hf. destruct (convert_complete asimp Hs _ f st cl st' I (cnf_walk_ok asimp Hs f) Hst H Hf) as (I' & A & B & C).
-    exists I'. repeat split; auto; try apply A. now apply as_formula_holds.
-  Qed.
-
+  Proof. intros Hst H. exact (cnf_complete_rel asimp all_interps (simp_sound_all asimp Hs) all_closed f st cl st' I Hst H Logic.I). Qed.
   Theorem cnf_sound f st cl st' J : start_ok f st ->
     cnf_convert asimp f st = Some (cl, st') -> sat J cl = true -> holds J f.
-  Proof. intros Hst H HJ. exact (convert_sound asimp Hs _ f st cl st' J (cnf_walk_ok asimp Hs f) Hst H HJ). Qed.
-
+  Proof. intros Hst H. exact (cnf_sound_rel asimp all_interps (simp_sound_all asimp Hs) all_closed f st cl st' J Hst H Logic.I). Qed.
   Theorem pol_shape f st cl st' : shape_hyp asimp ->
     pol_convert asimp f st = Some (cl, st') -> clauses_of_literals cl.
-  Proof. intros Hsh H. exact (convert_shape asimp _ f st cl st' (pol_walk_ok asimp Hs f) Hsh H). Qed.
-
+  Proof. exact (pol_shape_rel asimp all_interps (simp_sound_all asimp Hs) all_closed f st cl st'). Qed.
   Theorem pol_complete f st cl st' I : start_ok f st ->
     pol_convert asimp f st = Some (cl, st') -> holds I f ->
     exists I', agrees_off (introduced st') I I' /\ sat I' cl = true /\ holds I' (as_formula cl) /\
                (forall n, In n (introduced st') -> ~ In n (mnames (mgr st))).
-  Proof.
-    intros Hst H Hf. destruct (convert_complete asimp Hs _ f st cl st' I (pol_walk_ok asimp Hs f) Hst H Hf) as (I' & A & B & C).
-    exists I'. repeat split; auto; try apply A. now apply as_formula_holds.
-  Qed.
-
+  Proof. intros Hst H. exact (pol_complete_rel asimp all_interps (simp_sound_all asimp Hs) all_closed f st cl st' I Hst H Logic.I). Qed.
   Theorem pol_sound f st cl st' J : start_ok f st ->
     pol_convert asimp f st = Some (cl, st') -> sat J cl = true -> holds J f.
-  Proof. intros Hst H HJ. exact (convert_sound asimp Hs _ f st cl st' J (pol_walk_ok asimp Hs f) Hst H HJ). Qed.
-
+  Proof. intros Hst H. exact (pol_sound_rel asimp all_interps (simp_sound_all asimp Hs) all_closed f st cl st' J Hst H Logic.I). Qed.
 End Final.
 
 (* ------------------------------------------------------------------ regression cases *)
